@@ -303,6 +303,7 @@ def _chunk(job: tuple) -> dict:
     if time.time() > deadline:
         return agg
     dom = domain_of(row, tier, seed, opts)
+    cpu0 = time.process_time()
     for i in range(lo, hi):
         if time.time() > deadline:      # budget exhausted: return the prefix
             break
@@ -330,6 +331,7 @@ def _chunk(job: tuple) -> dict:
             agg['sample'] = {'pass': rowname, 'opts': opts, 'input': spec,
                              'outcome': r['outcome'],
                              'hs_cost': float(f'{r["cost"]:.2e}')}
+    agg['cpu'] = time.process_time() - cpu0
     return agg
 
 
@@ -380,7 +382,8 @@ def run(ctx: Ctx) -> None:
         nontrivial += agg['acts']
         d = per_row.setdefault(name, {
             'cases': 0, 'acts_on_input': 0, 'outcomes': {}, 'max_hs_cost': 0.0,
-            'max_entry_dev': 0.0, 'pass_cpu_seconds': 0.0, 'pre_errors': {},
+            'max_entry_dev': 0.0, 'pass_cpu_seconds': 0.0,
+            'case_cpu_seconds': 0.0, 'pre_errors': {},
             'not_ok_by_option': {},
         })
         d['cases'] += agg['cases']
@@ -388,6 +391,7 @@ def run(ctx: Ctx) -> None:
         d['max_hs_cost'] = max(d['max_hs_cost'], agg['max_cost'])
         d['max_entry_dev'] = max(d['max_entry_dev'], agg['max_ent'])
         d['pass_cpu_seconds'] += agg['secs']
+        d['case_cpu_seconds'] += agg.get('cpu', 0.0)
         for k, v in agg['outcomes'].items():
             d['outcomes'][k] = d['outcomes'].get(k, 0) + v
             ctx.outcomes[k] += v
@@ -431,6 +435,8 @@ def run(ctx: Ctx) -> None:
         'on (Row.acts_on) and the pass ran to a verdict'
     )
     ctx.cov['catalogue_rows'] = len(cat.ROWS)
+    ctx.cov['worker_cpu_seconds'] = round(sum(
+        d.get('case_cpu_seconds', 0.0) for d in per_row.values()), 1)
     ctx.cov['skipped'] = cat.SKIPPED
     ctx.cov['uncatalogued_exports'] = cat.uncatalogued()
     ctx.assumptions.extend([
